@@ -503,6 +503,17 @@ theorem destination_write_failure (C : Crypto) (hC : AeadOK C) (r : Reader) (cs 
         simp only [List.append_assoc]
       · obtain ⟨x, y⟩ := h5 h; exact ⟨x, by simp [pending, h2l', y]⟩
 
+
+/-- **dial_context_released**: when `DialStream` returns, nothing is registered on the dial context any
+more, for every payload length (in particular on both sides of `room`, where the excess is written
+through `netio.ConnWriteContext`): cancelling the dial context, or its deadline expiring, after the dial
+cannot reach into the session, so every clause above holds for such sessions unchanged. Depends on the
+regenerated fact `connWriteContextAlwaysStops` (`ConnWriteContextFunc` calls `stop()` unconditionally). -/
+theorem dial_context_released (C : Crypto) (cc : ClientCfg) (ch : DialChoice) (t : Addr) (P : Bytes) :
+    (dial C cc ch t P).ctxArmed = false := by
+  have hf : connWriteContextAlwaysStops = true := by decide
+  simp [dial, hf]
+
 /-- the splitting loops of `Write` / `ReadFrom` lose nothing and respect the chunk limit -/
 theorem writer_chunks_valid (calls : List WCall) :
     ValidChunks (calls.flatMap WCall.chunks) ∧
@@ -533,3 +544,4 @@ end SSV.C01
 #print axioms SSV.C01.writeto_into_any_sink
 #print axioms SSV.C01.request_observed_relayed
 #print axioms SSV.C01.destination_write_failure
+#print axioms SSV.C01.dial_context_released
